@@ -114,6 +114,20 @@ PROPS = {
         explanation="five clause theorems over all requests; the model is compared with the real handlers on every case and the same clause booleans, plus a byte-level frame "
                     "comparison of everything outside the modelled fields, are evaluated on the real response",
     ),
+    "C15": dict(
+        engines=[dict(name="custom", quick=600, thorough=30000, shard=200, trivial_tags=[])],
+        rule="seeded generator of (1-3 referenced resources: Istio VirtualService / DestinationRule with the built-in scripts, custom kinds with scripts from a small grammar "
+             "(set spec fields from weights, add labels/annotations, insert routes, drop labels/annotations/spec, fail at one weight, return a non-table); objects with nested "
+             "generated specs or no spec, nil / empty / non-empty labels and annotations, missing objects, a pre-existing empty snapshot; 1-3 strategies (weights incl. 0/100, "
+             "header matches, header modifier) and 1-7 operations (EnsureRoutes with repeats, Finalise)); the real provider runs on a fake client that counts Update calls; "
+             "every script evaluation the model needs is supplied by an independent run of the real Lua VM on the stored snapshot (oracle table); non-trivial = every case; "
+             "distinct = distinct input JSON",
+        trusted=["gopher-lua and luamanager evaluate the oracle table (the script is a parameter of the model and of the theorems)",
+                 "controller-runtime fake client stores unstructured objects as written"],
+        assumptions=["scripts are deterministic functions of their input (no os/time access: C16)", "Update never fails (conflicts are not injected)",
+                     "spec values survive a JSON round trip (integers of magnitude above 2^53 are outside the generator)"],
+        explanation="three history theorems for ANY script and any number of references; the same clause booleans and the model itself are evaluated against the real provider",
+    ),
     "C17": dict(
         engines=[dict(name="deployctl", quick=1200, thorough=60000, shard=400, trivial_tags=["no-change"])],
         rule="seeded generator of (replicas 0..100, partition int/percent incl. 0/1/99/100%, maxSurge/maxUnavailable int/percent/absent, new ReplicaSet size and availability, 0-5 old "
@@ -232,6 +246,15 @@ MANIFEST_TEXT = {
              "client, returned JSON patch applied to the submitted bytes) on generated requests on every run; the clause booleans and a byte-level frame check run on the real response.",
         note="The k8s rule Matcher and label-selector machinery are inputs; the full text of the rewritten deployment-strategy annotation is not modelled (only its paused flag).",
         design_ref="DESIGN.md section 9, C08"),
+    "C15": dict(
+        text="Proof: for ANY script (a parameter), any number of referenced resources and any history of EnsureRoutes / Finalise calls starting from what the user had: a successful "
+             "step leaves every resource showing exactly script(stored original, step) (steps never accumulate), Finalise restores spec, labels and annotations (nil and empty maps "
+             "identified) and removes the snapshot, a repeated step writes nothing and reports done, a second Finalise is a no-op. The Gallina provider (store / compare-and-update "
+             "/ restore, error paths included) is compared with the real customController on generated objects, scripts and operation sequences on every run, with the script "
+             "evaluations supplied by an independent run of the real Lua VM.",
+        note="The Istio split clause (100-w / w for a single stable destination, other hosts untouched) is checked by the istio engine; Update failures are not injected; integers "
+             "above 2^53 in a spec lose precision in the snapshot's JSON round trip (outside the generator, recorded as an observation in DESIGN.md).",
+        design_ref="DESIGN.md section 9, C15"),
     "C17": dict(
         text="Proof (two of four clauses): for every state of a partition-style Deployment and one sync of the advanced deployment controller, the new ReplicaSet never grows beyond "
              "max(current size, partition limit) while old pods exist and is never scaled up so that the total exceeds replicas + maxSurge. The model of reconcileNew/OldReplicaSets "
